@@ -11,13 +11,13 @@ CHECKS = {
             "DESIGN.md §4 C01",
             "Real csvdump runs over generated chains covering every CompactSize width boundary in every count/length position, segwit/legacy "
             "mixes, extreme field values, long chains and big scripts, x 8 coins x --verify on/off (+ debug build subset); all four CSV files, "
-            "file names and completion totals must equal an independent model byte for byte.",
+            "file names and completion totals must equal an independent model byte for byte. One run of more than 2^16 blocks (70,000; 140,000 in thorough) is compared with the model as well.",
             "Trusts the Python serialiser/model (hashlib sha256) and rusty-leveldb as index writer; only canonical, well-formed chains are generated."),
     "C02": ("exploration", "trace-spec monitor over hook event log + reference-model monitor on real runs",
             "DESIGN.md §4 C02",
             "Every accepted (--start,--end) combination for chains of 1..6 (quick) / 1..10 (thorough) blocks is executed with all five "
             "callbacks on the real binary; the H1 delivery log must be exactly start(s), deliver s..min(e,T) ascending once, complete(last); "
-            "all outputs must equal the independent model of that slice. Bounded-exhaustive for small T, sampled for heights up to 5M.",
+            "all outputs must equal the independent model of that slice. Bounded-exhaustive for small T, sampled for heights up to 5M. Windows crossing round heights (10^k, 2^k, halving multiples) included.",
             "Trusts the Python reference model/generators, rusty-leveldb (index writer) and that the H1 hook is placed directly before the callback call."),
     "C03": ("exploration", "metamorphic + reference-model monitor over physical layouts, trace check of the fetch log",
             "DESIGN.md §4 C03",
@@ -34,7 +34,7 @@ CHECKS = {
     "C06": ("exploration", "differential monitor: real evaluator verdict stream vs push-rule tokenizer/template reference",
             "DESIGN.md §4 C06",
             "As C05 for the six fork coins with fork-specific families (every push form in every template slot across all width boundaries, "
-            "zero-length and truncated pushes, NOP insertion, wrong/missing/extra tokens); no Error pattern and no panic allowed.",
+            "zero-length and truncated pushes, NOP insertion, wrong/missing/extra tokens); no Error pattern and no panic allowed. Long evaluation histories in one process (2^16+ distinct destinations, then earlier ones return in the same and in another role).",
             "Reference tokenizer + five templates from the statement; coin version bytes taken from the property text."),
     "C11": ("exploration", "metamorphic monitor: plaintext vs XOR-obfuscated directory, plus reference model",
             "DESIGN.md §4 C11",
@@ -45,42 +45,42 @@ CHECKS = {
     "C14": ("exploration", "totality monitor (exit status/panic) on debug+release builds + reference model on whole-program runs",
             "DESIGN.md §4 C14",
             "Hostile byte strings are pushed through the evaluator in-process (catch_unwind) on debug and release builds for 8 coins, and placed "
-            "into scriptPubKey/scriptSig/witness of valid chains on which all five callbacks must exit 0 with outputs equal to the model.",
+            "into scriptPubKey/scriptSig/witness of valid chains on which all five callbacks must exit 0 with outputs equal to the model. Well-formed scripts count as hostile content too: innocent outputs reusing a hostile script's pushed bytes in another role must keep their model rows.",
             "Debug-profile overflow/bounds checks act as the sanitizer; chains are otherwise valid."),
     "C16": ("exploration", "reference-model monitor on real opreturn runs (exact text and order)",
             "DESIGN.md §4 C16",
             "Payload lengths 0..300 exhaustively and up to 70,000 in every push form, ASCII/UTF-8/invalid/newline/control payloads mixed with all "
-            "other script types x 8 coins x ranges; stdout minus log lines must equal the model's line sequence exactly.",
+            "other script types x 8 coins x ranges; stdout minus log lines must equal the model's line sequence exactly. One run of more than 2^16 blocks (70,000; 140,000 in thorough) is compared with the model as well.",
             "OP_RETURN scripts that are not exactly one push are unconstrained; payloads never look like log lines."),
     "C04": ("exploration", "trace-spec monitor over the delivery log (exact sequence + prev links) + reference model of the active chain alone",
             "DESIGN.md §4 C04, §5",
             "Indexes with an active chain plus header-only / failed records and one data-bearing competitor class (stale, failed, reorged-out; "
             "occupied height or beyond the tip; key sorted before/after the active block; branch length 1..3) are run for real; the delivered hash "
             "sequence must be the active chain with intact prev links and every output must equal the model. Four competitor shapes are recorded "
-            "known findings (KNOWN_FINDINGS.txt); every other deviation, including an unexpected one inside such a case, is a violation.",
+            "known findings (KNOWN_FINDINGS.txt); every other deviation, including an unexpected one inside such a case, is a violation. Indexes of a node in headers-first sync (9,000 to 140,000 header-only records) with losing competitors at most heights included.",
             "Status semantics of Bitcoin Core's BlockStatus; one data-bearing competitor class per index so that attribution is exact."),
     "C07": ("exploration", "reference-model monitor over bounded-exhaustive and random spend histories (row multiset of real unspentcsvdump runs)",
             "DESIGN.md §4 C07",
             "All event sequences of <=4 (quick) / <=5 (thorough) events over an 11-letter alphabet, in every split over <=3 blocks, packed as "
             "independent lanes into real chains, x ranges x 3 coins, plus random long histories: header, row multiset, no duplicates and totals "
-            "must equal the model UTXO set.",
+            "must equal the model UTXO set. One run of more than 2^16 blocks (70,000; 140,000 in thorough) is compared with the model as well.",
             "UTXO semantics as stated in the property; addresses from the C05/C06 reference for pinned script shapes only."),
     "C08": ("exploration", "reference-model monitor + two-run relation monitor (balances vs aggregated unspent dump)",
             "DESIGN.md §4 C08",
             "C07 histories plus address-sharing, P2PK/P2PKH of one key, spent-and-refunded addresses and sums up to just below 2^64; the real "
-            "balances file must equal the model and the aggregation of the unspent dump produced from the same directory and range.",
+            "balances file must equal the model and the aggregation of the unspent dump produced from the same directory and range. One run of more than 2^16 blocks (70,000; 140,000 in thorough) is compared with the model as well.",
             "Per-address sums below 2^64."),
     "C09": ("fault_enumeration", "fault enumeration on stored bytes (single-bit flips, block swaps, wrong genesis) with exit-status/stderr/directory oracle; completeness by model",
             "DESIGN.md §4 C09",
             "Completeness: every tx count 1..64 and larger trees, start offsets, 8 coins with real genesis blocks where reconstructible. "
             "Soundness: all 256 bits of the merkle and prev fields of targeted blocks, sampled (quick) or all (thorough) bits of txid-covered tx "
-            "bytes, foreign-block swaps and wrong genesis must make the run fail at that height with no final-named output.",
+            "bytes, foreign-block swaps and wrong genesis must make the run fail at that height with no final-named output. A verified run of more than 2^16 blocks and windows crossing round heights (10^k, 2^k) must be accepted too.",
             "Unparsable-after-flip counts as rejected; corruption applied to block bytes while the index keeps the original hash."),
-    "C10": ("fault_enumeration", "fault enumeration (file faults, RLIMIT_FSIZE, strace-injected write errors, SIGKILL at syscall ordinals) with outcome oracle + trace spec over strace logs",
+    "C10": ("fault_enumeration", "fault enumeration (file faults, RLIMIT_FSIZE, strace-injected write errors, SIGKILL at syscall ordinals) with outcome oracle + trace spec over strace logs; strace-injected errors on input syscalls, mid-run file damage under SIGSTOP",
             "DESIGN.md §4 C10",
             "Input faults at every height x kind x truncation point; output faults on a size-limit grid and at every k-th write; SIGKILL at every "
             "ordinal of every output syscall; outcome oracle (exit 0 => complete final files and no tmp; failure => no final file), trace spec "
-            "'final names only via rename(tmp->final), no write after rename', crash oracle 'no partial final-named file'.",
+            "'final names only via rename(tmp->final), no write after rename', crash oracle 'no partial final-named file'. Also: EMFILE/ENOENT/EACCES/EIO injected at every open and read of a blk file, blk files unlinked or shrunk while the run is suspended, and faults hitting 255..1024 blocks at once.",
             "Kill points are syscall boundaries touching output paths; kernel-level torn writes and fsync semantics out of scope."),
     "C12": ("exploration", "reference-model monitor on real runs over generated AuxPoW sections",
             "DESIGN.md §4 C12",
@@ -88,18 +88,18 @@ CHECKS = {
             "versions below/at/above the threshold, mixed chains, and the six other coins as negative control; csvdump (+unspent/simplestats) "
             "with --verify must equal the model that ignores the section.",
             "Section layout per the merged-mining specification."),
-    "C13": ("exploration", "cross-run equality monitor under varied schedules (thread counts, in-task delay injection, CPU pinning) with hook-proved work splitting; run-history monitor with input-integrity digests and strace spec; ThreadSanitizer (thorough)",
+    "C13": ("exploration", "cross-run equality monitor under varied schedules (thread counts, in-task delay injection, CPU pinning) with hook-proved work splitting; run-history monitor with input-integrity digests and strace spec; ThreadSanitizer (thorough); suspended-run monitor",
             "DESIGN.md §4 C13",
             "The same directory is run under 6 thread counts x jitter seeds x CPU contention; all callbacks must agree with each other and the "
             "model; H3 log proves blocks were split across workers and counts distinct thread->task maps. Run sequences into a dirty dump folder "
             "with the index reopened 11 times: results unchanged, blk/xor digests and index key/value dump unchanged, no write-type syscall on "
-            "input files. Thorough adds a TSan build.",
+            "input files. Thorough adds a TSan build. Runs suspended for more than 10 s (SIGSTOP/SIGCONT) reach the time-driven progress report and must give the undisturbed result; schedule chains contain ties for both per-report records.",
             "Only observed interleavings count; jitter sleeps inside tasks; TSan reports inside dependencies are listed as inconclusive."),
     "C15": ("exploration", "reference-model monitor: parsed report vs exact rational recomputation, on debug and release builds; direct get_mean monitor through the tool mode",
             "DESIGN.md §4 C15",
             "Chains with all script types, non-monotonic timestamps, ties, multiple coinbase-shaped txs, halving boundaries and gap sums above "
             "2^32 x coins x ranges on both builds; every figure of the real report equals the exact recomputation at printed precision; "
-            "get_mean checked on thousands of u32 multisets including sums above 2^32.",
+            "get_mean checked on thousands of u32 multisets including sums above 2^32. One run of more than 2^16 blocks (70,000; 140,000 in thorough) is compared with the model as well.",
             "No block with timestamp 0; value sums below 2^64."),
     "C17": ("exploration", "trace-spec monitor over /proc/self/fd census events + RLIMIT_NOFILE black-box monitor",
             "DESIGN.md §4 C17",
